@@ -55,7 +55,7 @@ def read_hard_cases():
     return cases
 
 
-def mixture_moments(rng, nd):
+def mixture_moments(rng, nd, bg=None):
     th = np.linspace(0, 2 * np.pi, 4096, endpoint=False)
     binw = 2 * np.pi / nd
     lobes = int(rng.choice([1, 1, 2]))
@@ -69,7 +69,8 @@ def mixture_moments(rng, nd):
         w = np.exp(kappa * (np.cos(th - m) - 1))
         D += rng.uniform(0.3, 1.0) * w / w.sum()
     D = D / D.sum()
-    D = (1 - (bg := rng.uniform(0, 0.3))) * D + bg / len(th)
+    bg = rng.uniform(0, 0.3) if bg is None else bg
+    D = (1 - bg) * D + bg / len(th)
     mom = np.array([np.sum(D * np.cos(th)), np.sum(D * np.sin(th)), np.sum(D * np.cos(2 * th)), np.sum(D * np.sin(2 * th))])
     return mom, lobes
 
@@ -180,6 +181,50 @@ def judge(ctx, c, hard=False):
             ctx.close(f"C06.mirror:{tag}", Dm, D[idx], atol=rtol * scale, rtol=rtol, case=wit, key=f"C06:mirror:{tag}")
 
 
+def judge_batch(ctx, c):
+    """several frequencies in one call (a swell peak next to a wind sea from elsewhere, clean lobes without
+    background next to broad ones): every member must reproduce its own moments, the two solvers must agree per
+    member, and a member's result must not depend on its neighbours in the batch"""
+    from ocean_science_utilities.wavespectra.estimators.estimate import estimate_directional_distribution as edd
+    M = np.asarray(c["batch"], float)  # (nf, 4)
+    nd = int(c["nd"])
+    d = np.arange(nd) * 360.0 / nd
+    nf = M.shape[0]
+    lead = (1, nf) if c.get("two_dims") else (nf,)
+    args = [M[:, j].reshape(lead) for j in range(4)]
+    ctx.case(("batch", nd, nf, bool(c.get("two_dims"))), nontrivial=nf >= 2, sample={"N": nd, "moments": M})
+    out = {}
+    for method, sm in (("mem2", "newton"), ("mem2", "scipy")):
+        tag = f"{method}:{sm}"
+        wit = lambda: dict(c, method=tag)  # noqa
+        ok, D = guarded(ctx, "C06.no-exception", lambda: edd(*args, d, method, solution_method=sm), wit, key=f"C06:raised:{tag}")
+        if not ok:
+            continue
+        D = np.asarray(D, float).reshape(nf, nd)
+        out[tag] = D
+        for i in range(nf):
+            err = float(np.linalg.norm(recomputed(D[i], d) - M[i]))
+            ctx.check(f"C06.batch:{tag}:moment-error<=0.01", err <= 0.01 + 1e-9, lambda: dict(c, method=tag, member=i),
+                      {"error": err, "member": i, "moments": M[i]}, key=f"C06:batch:fidelity:{tag}")
+            ok1, D1 = guarded(ctx, "C06.no-exception", lambda: estimate(M[i], d, method, sm), wit, key=f"C06:raised:{tag}")
+            if ok1:
+                rtol = 1e-4 if sm == "scipy" else 1e-6
+                ctx.close(f"C06.batch-member==single:{tag}", D[i], D1, atol=rtol * float(D1.max()), rtol=rtol,
+                          case=lambda: dict(c, method=tag, member=i), key=f"C06:batch:single:{tag}")
+    if len(out) == 2:
+        for i in range(nf):
+            diff = float(np.linalg.norm(recomputed(out["mem2:newton"][i], d) - recomputed(out["mem2:scipy"][i], d)))
+            ctx.check("C06.batch:newton-vs-scipy<=0.02", diff <= 0.02 + 1e-9, lambda: dict(c, member=i), {"difference": diff},
+                      key="C06:batch:newton-vs-scipy")
+
+
+def make_batch(rng, nd):
+    nf = int(rng.integers(2, 7))
+    rows = [mixture_moments(rng, nd, bg=(float(rng.choice([0.0, 0.002, 0.007])) if rng.uniform() < 0.7 else None))[0]
+            for _ in range(nf)]
+    return {"batch": np.array(rows), "nd": nd, "two_dims": bool(rng.uniform() < 0.5)}
+
+
 def judge_jacobian(ctx, c):
     from ocean_science_utilities.wavespectra.estimators import mem2 as m2
     nd = int(c["nd"])
@@ -228,10 +273,25 @@ def run_shard(ctx, shard):
         lam = rng.uniform(-1, 1, 4)
         lam = lam / np.linalg.norm(lam) * rng.uniform(0, 10)
         judge_jacobian(ctx, {"nd": nd, "lambda": lam, "moments": mom, "start": float(rng.uniform(-3, 3))})
+        if i % 2 == 0 and not shard.get("warmup"):
+            judge_batch(ctx, make_batch(rng, nd))
+        if i % 8 == 5 and not shard.get("warmup"):
+            # a call with the rarely used solver_config keyword: it must not change what the calls after it return
+            from ocean_science_utilities.wavespectra.estimators.estimate import estimate_directional_distribution as edd
+            cfg = [{"atol": 0.1}, {"atol": 0.05, "max_iter": 5}, {"rcond": 1e-2}][int(rng.integers(0, 3))]
+            a = [np.array([m]) for m in mom]
+            try:
+                edd(a[0], a[1], a[2], a[3], np.arange(nd) * 360.0 / nd, "mem2",
+                    solution_method=str(rng.choice(["newton", "scipy", "approximate"])), solver_config=cfg)
+            except Exception:
+                pass
+            ctx.count("C06.configured_calls_interleaved")
 
 
 def replay(ctx, case):
     if "lambda" in case:
         judge_jacobian(ctx, case)
+    elif "batch" in case:
+        judge_batch(ctx, case)
     else:
         judge(ctx, case, hard=case.get("lobes") is None)
